@@ -59,6 +59,10 @@ func c11(r *eng.Run) {
 	res := runE1(r, sp, D, K, r.Pick(300000, 3000000))
 	e1Evidence(r, D, K, res)
 	coverageReport(r, "skipValueFast", "skipValue")
+	runFamily(r, "long-runs", "SkipValueFast", longRunFamily(r.Thorough()), sp.check)
+	runFamily(r, "string-shapes", "SkipValueFast", stringShapeFamily(), sp.check)
+	runFamily(r, "depth-sites", "SkipValueFast", depthSiteFamily(70), sp.check)
+	runPairSweep(r, "SkipValueFast", pairCtxAll, sp.check)
 	// deep family: fast skipping at the depth limit must agree wherever SkipValue succeeds
 	deep := 0
 	for _, unit := range [][2]string{{"[", "]"}, {`{"k":`, "}"}, {`[{"a":`, "}]"}} {
